@@ -14,7 +14,8 @@ use c2pa::{Context, Reader};
 use serde_json::{json, Value};
 use std::collections::BTreeMap;
 use std::io::Cursor;
-use vmon::{assets, embedkit, par, report, signers, wrap::ChoppyStream, Rng, Run};
+use vmon::iokit::{self, differing, out_class, Mode, Shim};
+use vmon::{assets, embedkit, par, report, signers, Rng, Run};
 
 // ------------------------------------------------------------------------------------------------
 // magic table (format specifications)
@@ -125,45 +126,7 @@ struct Subject {
 }
 
 fn read_choppy(hint: &str, bytes: &[u8], seed: u64, max_chunk: usize) -> report::Outcome {
-    let h = hint.to_string();
-    let b = bytes.to_vec();
-    match report::catch_sdk(move || {
-        let s = ChoppyStream::new(Cursor::new(b), seed, max_chunk, 0);
-        report::outcome_of(Reader::from_context(ctx()).with_stream(&h, s))
-    }) {
-        Ok(o) => o,
-        Err(p) => report::Outcome { state: "Panic".into(), error: Some(p), report: Value::Null, codes: vec![] },
-    }
-}
-
-fn differing(a: &report::Outcome, b: &report::Outcome) -> Option<&'static str> {
-    if a.state == "Err" || b.state == "Err" || a.state == "Panic" || b.state == "Panic" {
-        if a.state != b.state {
-            return Some("ok-vs-err");
-        }
-        if a.error != b.error {
-            return Some("error-kind");
-        }
-        return None;
-    }
-    if a.state != b.state {
-        return Some("state");
-    }
-    if a.codes != b.codes {
-        return Some("codes");
-    }
-    if a.report != b.report {
-        return Some("report");
-    }
-    None
-}
-
-fn out_class(o: &report::Outcome) -> String {
-    match o.state.as_str() {
-        "Err" => format!("err:{}", o.error.clone().unwrap_or_default()),
-        "Panic" => "panic".into(),
-        s => s.to_string(),
-    }
+    iokit::read_stream(ctx(), hint, Shim::new(Cursor::new(bytes.to_vec()), Mode::Choppy { max_chunk, interrupt_every: 0 }, seed))
 }
 
 struct CaseRes {
@@ -175,6 +138,8 @@ struct CaseRes {
     detail: String,
     panic: Option<String>,
     nondet: bool,
+    /// choppy only: does the in-memory read under the *same* hint agree with the reference?
+    mem_same: bool,
 }
 
 fn main() {
@@ -184,7 +149,7 @@ fn main() {
     run.assumptions = vec![
         "'identifies a supported container' is decided by the harness's magic table (see source) — bytes it does not recognise (SVG/XML, text, .c2pa sidecars, bare JXL codestreams, unknown RIFF forms) are only checked for no-panic + determinism and logged as unjudged".into(),
         "the reference outcome is the read with the asset's true extension as hint; equality of (normalised report, codes, error kind) is demanded for every other hint".into(),
-        "short-read delivery: std::io::Read permits returning fewer bytes than requested, so the 'leading bytes' of such a stream are the same bytes; the reference is the in-memory read with the true hint".into(),
+        "short-read delivery: std::io::Read permits returning fewer bytes than requested, so the 'leading bytes' of such a stream are the same bytes; the reference is the read with the true hint through the same short-read delivery (whether short reads alone change a result is judged by C35)".into(),
         "remote manifest fetching is disabled (offline sandbox)".into(),
     ];
     let quick = run.quick();
@@ -313,8 +278,9 @@ fn main() {
         } else {
             bytes
         };
-        let a = report::read_bytes_catch(ctx(), w["true_fmt"].as_str().unwrap(), &bytes);
-        let b = if w["mode"] == "choppy" { read_choppy(w["hint"].as_str().unwrap(), &bytes, 1, 1) } else { report::read_bytes_catch(ctx(), w["hint"].as_str().unwrap(), &bytes) };
+        let a = iokit::read_mem(ctx(), w["true_fmt"].as_str().unwrap(), &bytes);
+        let a = if w["mode"] == "choppy" { read_choppy(w["true_fmt"].as_str().unwrap(), &bytes, 1, 1) } else { a };
+        let b = if w["mode"] == "choppy" { read_choppy(w["hint"].as_str().unwrap(), &bytes, 1, 1) } else { iokit::read_mem(ctx(), w["hint"].as_str().unwrap(), &bytes) };
         let d = differing(&a, &b);
         println!("replay: reference={} hinted={} differing={:?}", out_class(&a), out_class(&b), d);
         std::process::exit(if d.is_some() { 1 } else { 0 });
@@ -322,7 +288,12 @@ fn main() {
 
     // ---------------- work list
     // reference outcomes (true hint, in memory)
-    let refs: Vec<report::Outcome> = par::par_map(subjects.len(), |i| report::read_bytes_catch(ctx(), subjects[i].true_fmt, &subjects[i].bytes));
+    let refs: Vec<report::Outcome> = par::par_map(subjects.len(), |i| iokit::read_mem(ctx(), subjects[i].true_fmt, &subjects[i].bytes));
+    // short-read delivery is compared against the *same delivery* under the true hint, so that only the
+    // hint varies (whether short reads by themselves change a result is C35's question)
+    let chunk_of = |si: usize| [1usize, 2, 3, 7, 15][si % 5];
+    let seed = run.seed;
+    let refs_choppy: Vec<report::Outcome> = par::par_map(subjects.len(), |i| read_choppy(subjects[i].true_fmt, &subjects[i].bytes, seed ^ (i as u64), chunk_of(i)));
     let mut work: Vec<(usize, usize, &'static str)> = Vec::new();
     for (si, s) in subjects.iter().enumerate() {
         let big = s.bytes.len() > 60_000;
@@ -345,7 +316,6 @@ fn main() {
             }
         }
     }
-    let seed = run.seed;
     let results: Vec<CaseRes> = par::par_map_watch(
         work.len(),
         180,
@@ -358,24 +328,25 @@ fn main() {
             let s = &subjects[si];
             let h = &hints[hi];
             let o = if mode == "mem" {
-                report::read_bytes_catch(ctx(), h, &s.bytes)
+                iokit::read_mem(ctx(), h, &s.bytes)
             } else {
-                let chunk = [1usize, 2, 3, 7, 15][(si + hi) % 5];
-                read_choppy(h, &s.bytes, seed ^ (i as u64), chunk)
+                read_choppy(h, &s.bytes, seed ^ (si as u64), chunk_of(si))
             };
+            let mem_same = mode == "choppy" && differing(&refs[si], &iokit::read_mem(ctx(), h, &s.bytes)).is_none();
             let mut nondet = false;
             if s.family.is_none() && mode == "mem" {
-                let o2 = report::read_bytes_catch(ctx(), h, &s.bytes);
+                let o2 = iokit::read_mem(ctx(), h, &s.bytes);
                 nondet = differing(&o, &o2).is_some();
             }
-            let diff = differing(&refs[si], &o);
+            let rf = if mode == "mem" { &refs[si] } else { &refs_choppy[si] };
+            let diff = differing(rf, &o);
             let detail = match diff {
-                Some("report") => report::diff_paths(&refs[si].report, &o.report, 3).join(" ; "),
-                Some("codes") => format!("{:?} vs {:?}", refs[si].failure_codes(), o.failure_codes()),
-                Some(_) => format!("{} vs {}", out_class(&refs[si]), out_class(&o)),
+                Some("report") => report::diff_paths(&rf.report, &o.report, 3).join(" ; "),
+                Some("codes") => format!("{:?} vs {:?}", rf.failure_codes(), o.failure_codes()),
+                Some(_) => format!("{} vs {}", out_class(rf), out_class(&o)),
                 None => String::new(),
             };
-            CaseRes { subject: si, hint: h.clone(), mode, out: out_class(&o), diff, detail, panic: if o.state == "Panic" { o.error.clone() } else { None }, nondet }
+            CaseRes { subject: si, hint: h.clone(), mode, out: out_class(&o), diff, detail, panic: if o.state == "Panic" { o.error.clone() } else { None }, nondet, mem_same }
         },
     );
 
@@ -386,7 +357,7 @@ fn main() {
         run.eval();
         let hf = hint_family(&r.hint);
         let w = json!({"subject": s.name, "variant": s.variant, "true_fmt": s.true_fmt, "len": s.bytes.len(), "hint": r.hint, "mode": r.mode,
-            "reference": out_class(&refs[r.subject]), "hinted": r.out, "detail": r.detail,
+            "reference": out_class(if r.mode == "mem" { &refs[r.subject] } else { &refs_choppy[r.subject] }), "hinted": r.out, "detail": r.detail,
             "bytes_hex": if s.bytes.len() <= 4096 { hex::encode(&s.bytes) } else { String::new() }});
         if let Some(p) = &r.panic {
             run.violation(&format!("{}|{}|panic", s.family.unwrap_or("nomagic"), hf), &format!("panic reading {} under hint {:?}: {p}", s.name, r.hint), w.clone());
@@ -400,7 +371,19 @@ fn main() {
                     run.count("judged_wrong_family_hint", 1);
                 }
                 if let Some(d) = r.diff {
-                    let sig = if r.mode == "choppy" { format!("{fam}|{hf}|{d}|short-read") } else { format!("{fam}|{hf}|{d}") };
+                    // cause classes: (a) the hint alone changes the verdict (in memory); (b) only the short-read
+                    // delivery does, under a hint of another family (sniffing relies on one full first read);
+                    // (c) short reads change the verdict even under a same-family hint (C35's subject too).
+                    let sig = if r.mode == "mem" {
+                        format!("{fam}|{hf}|{d}")
+                    } else if r.mem_same && hf != fam {
+                        run.count("short_read_sniff_fallback_to_hint", 1);
+                        "any-magic|other-family-hint|short-first-read-defeats-sniffing".to_string()
+                    } else if r.mem_same {
+                        format!("{fam}|same-family-hint|{d}|short-read")
+                    } else {
+                        format!("{fam}|{hf}|{d}")
+                    };
                     run.violation(&sig, &format!("{} ({}, magic={fam}) read with hint {:?} [{}]: {} — differs from the read with the true hint ({})", s.name, s.variant, r.hint, r.mode, r.out, r.detail), w.clone());
                 } else if hf != fam && refs[r.subject].accepted() {
                     run.sample("accepted-under-wrong-hint", 3, w.clone());
